@@ -98,23 +98,59 @@ ghost var closes mmap[int]int     // entity -> number of Close calls
 ghost var inhPrev mmap[int]int    // entity -> the predecessor it inherited from
 
 // the *WithRecovery wrappers call the object's Init / Inherit / Close once and recover() a panic of it
+// the *WithRecovery wrappers: on every path on which the object's own method does not panic (a panic is swallowed
+// by the deferred recover, which is not modelled) the method is called exactly once, with this entity's spec (and,
+// for Inherit, the previous entity's instance)
+iface (c Controller) Init(superSpec *Spec)
+  flag allocates
+iface (t TrafficObject) Init(superSpec *Spec, muxMapper context.MuxMapper)
+  flag allocates
+iface (c Controller) Inherit(superSpec *Spec, previousGeneration Object)
+  flag allocates
+iface (t TrafficObject) Inherit(superSpec *Spec, previousGeneration Object, muxMapper context.MuxMapper)
+  flag allocates
+ghost var gLifeSpec int   // the spec handed to the object's method
+ghost var gLifePrev int   // Inherit: the instance handed over as previous generation
 func (e *ObjectEntity) InitWithRecovery(muxMapper context.MuxMapper)
-  trusted
+  flag allocates
+  flag frame=unchecked
   requires e != nil
-  modifies inits
-  ensures inits == old(store(inits, ref(e), inits[ref(e)] + 1))
+  assume every-entity-is-built-with-an-instance: e.instance != nil
+  modifies inits, gLifeSpec, e.generation
+  panics_only_if true
+  ensures the-objects-init-is-called-exactly-once: inits == old(store(inits, ref(e), inits[ref(e)] + 1))
+  ensures with-the-entitys-own-spec: gLifeSpec == ref(e.spec)
+  ghost at call Init: inits := store(inits, ref(e), inits[ref(e)] + 1)
+  ghost at call Init: gLifeSpec := ref(superSpec)
 
 func (e *ObjectEntity) InheritWithRecovery(previousEntity *ObjectEntity, muxMapper context.MuxMapper)
-  trusted
+  flag allocates
+  flag frame=unchecked
   requires e != nil && previousEntity != nil
-  modifies inherits, inhPrev
-  ensures inherits == old(store(inherits, ref(e), inherits[ref(e)] + 1)) && inhPrev == old(store(inhPrev, ref(e), ref(previousEntity)))
+  assume every-entity-is-built-with-an-instance: e.instance != nil
+  modifies inherits, inhPrev, gLifeSpec, gLifePrev, e.generation
+  panics_only_if true
+  ensures the-objects-inherit-is-called-exactly-once: inherits == old(store(inherits, ref(e), inherits[ref(e)] + 1)) && inhPrev == old(store(inhPrev, ref(e), ref(previousEntity)))
+  ensures with-the-entitys-own-spec-and-the-previous-instance: gLifeSpec == ref(e.spec) && gLifePrev == ifaceVal(previousEntity.instance)
+  ghost at call Inherit: inherits := store(inherits, ref(e), inherits[ref(e)] + 1)
+  ghost at call Inherit: inhPrev := store(inhPrev, ref(e), ref(previousEntity))
+  ghost at call Inherit: gLifeSpec := ref(superSpec)
+  ghost at call Inherit: gLifePrev := ifaceVal(previousGeneration)
 
+// CloseWithRecovery: on every path on which the object's own Close does not panic (a panic is swallowed by the
+// deferred recover, which is not modelled) the object's Close is called exactly once - whatever the entity's
+// generation counter says (an object whose Init panicked is still live and still has to be closed)
+iface (o Object) Close()
+  flag allocates
 func (e *ObjectEntity) CloseWithRecovery()
-  trusted
+  flag allocates
+  flag frame=unchecked
   requires e != nil
+  assume every-entity-is-built-with-an-instance: e.instance != nil
   modifies closes
-  ensures closes == old(store(closes, ref(e), closes[ref(e)] + 1))
+  panics_only_if true
+  ensures the-objects-close-is-called-exactly-once: closes == old(store(closes, ref(e), closes[ref(e)] + 1))
+  ghost at call Close: closes := store(closes, ref(e), closes[ref(e)] + 1)
 
 axiom string-keys-compare-by-value: forall a, b string :: boxed("string", a) == boxed("string", b) ==> a == b
 
